@@ -574,7 +574,6 @@ func checkCandidateEventSources(p *Prog, r *Report, nonNil bool) {
 	_ = nNonNil
 }
 
-
 // checkWaitGroupsAwaited: in every function whose (root) name starts with prefix and that
 // declares a local sync.WaitGroup, Wait is deferred or follows every Add on every path to the exit.
 func checkWaitGroupsAwaited(p *Prog, r *Report, prefix string) {
